@@ -146,8 +146,12 @@ func (r *Run) Undecided(rule, key, pos, msg string) {
 	r.Violate(Violation{Rule: rule, Key: rule + ":" + key, Pos: pos, Msg: msg, Kind: "undecided"})
 }
 
-func (r *Run) Explainf(format string, a ...any) { r.Explain = append(r.Explain, fmt.Sprintf(format, a...)) }
-func (r *Run) Assumef(format string, a ...any)  { r.Assume = append(r.Assume, fmt.Sprintf(format, a...)) }
+func (r *Run) Explainf(format string, a ...any) {
+	r.Explain = append(r.Explain, fmt.Sprintf(format, a...))
+}
+func (r *Run) Assumef(format string, a ...any) {
+	r.Assume = append(r.Assume, fmt.Sprintf(format, a...))
+}
 func (r *Run) Sample(s any) {
 	if len(r.Samples) < 40 {
 		r.Samples = append(r.Samples, s)
